@@ -306,6 +306,34 @@ def anchor_files(prop):
     return set()
 
 
+def fn_base_name(fn):
+    rec = re.sub(r"<.*", "", fn.record or fn.qname.rsplit("::", 1)[0])
+    return "%s::%s" % (rec, fn.name)
+
+
+def mark_unknown_helpers(ctx):
+    """functions defined in the property's anchor files that are not in the committed baseline (known_functions.json: the
+    functions that existed when the rules were armed) are treated as extracted helpers: expanded into their callers and
+    hidden from the rules' function enumeration, so that moving a few statements into a new member function does not
+    change what the rules see. The generic rule G2 still looks at them."""
+    p = os.path.join(VERIF, "known_functions.json")
+    if not os.path.exists(p):
+        return
+    with open(p) as f:
+        known = set(json.load(f).get(ctx.prop, []))
+    if not known:
+        return
+    files = anchor_files(ctx.prop)
+    new = set()
+    for fn in ctx.fb.all_fns():
+        if fn.file in files and not fn.lambda_ and fn.has_cfg() and fn.kind == "method" and fn_base_name(fn) not in known:
+            fn.unknown_helper = True
+            new.add(fn_base_name(fn))
+    if new:
+        ctx.note("member function(s) not in the baseline were expanded into their callers and not analysed as functions of "
+                 "their own: %s" % ", ".join(sorted(new)))
+
+
 def check_anchor_names(ctx, module):
     """ANCHORS of a rule module: {function name: record regex} for every function the rules locate *by name*.
     A name that no longer exists in its class was renamed or removed: the rules anchored on it cannot decide
@@ -349,7 +377,9 @@ def generic_rules(ctx, module):
         return
     L.check_special_members(ctx, "%s.G1" % ctx.prop, ctx.fb, r"^babylon::", files=files, skip=GENERIC_SKIP)
     seen = set()
-    for fn in ctx.fb.find(pred=lambda f: f.has_cfg() and f.file in files and not f.lambda_):
+    for fn in ctx.fb.all_fns():
+        if not (fn.has_cfg() and fn.file in files and not fn.lambda_):
+            continue
         k = (fn.qname, fn.file, fn.line)
         if k in seen:
             continue
@@ -389,6 +419,7 @@ def run_property(prop, module, tier):
                 elif tu.errors:
                     raise AnalysisBroken("unit %s has compile errors under clang" % tu.name)
             check_anchor_names(ctx, module)
+            mark_unknown_helpers(ctx)
             module.run(ctx)
             generic_rules(ctx, module)
             if hasattr(module, "extra") and tier == "thorough":
